@@ -717,6 +717,11 @@ def _check_udp_outcome(world, case, q, q_raw, mats, want, out, elapsed, res):
             raise Violation("C18:returned-not-genuine", f"{tag}: returned datagram #{idx} ({k}) which is not a genuine response from the queried address; arrivals {seq}")
         idx = want[1] if (want[0] == "ok" and want[1] in good) else good[0]
         k = mats[idx][3]
+        # independent of any parser: the records the header announces must lie inside the datagram and,
+        # unless trailing data was allowed, end exactly at its end
+        we = walk_end(mats[idx][1])
+        if we is None or (we < len(mats[idx][1]) and not o.get("ignore_trailing", False)):
+            raise Violation("C18:returned-malformed", f"{tag}: returned datagram #{idx} ({k}) whose records {'run past its end' if we is None else 'end before its end (trailing octets)'}; arrivals {seq}")
         if elapsed > T + 1e-6:
             raise Violation("C18:returned-after-deadline", f"{tag}: returned after {elapsed}s with timeout {T}")
         if want != ("ok", idx):
@@ -1244,6 +1249,9 @@ def _run_tcp_full(case, res, log):
                 raise Violation("C18:returned-not-delivered", f"{tag}: returned message is not the framed reply")
             if not is_response_raw(q_raw, raw_parse(w)):
                 raise Violation("C18:returned-not-genuine", f"{tag}: returned a reply that is not a response to the query")
+            we = walk_end(w)
+            if we is None or (we < len(w) and not case["ignore_trailing"]):
+                raise Violation("C18:returned-malformed", f"{tag}: returned a framed reply whose records do not end exactly at the end of the frame")
             if bytes(script.received) != len(qwire).to_bytes(2, "big") + qwire:
                 raise Violation("C18:tcp-send-bytes", f"{tag}: peer did not receive exactly the framed query")
             if elapsed > case["timeout"] * (2 if fallback else 1) + 1e-6:
